@@ -161,7 +161,7 @@ def r5(rr, repo):
         st = [e for e in p.events if e.kind == 'store' and e.term == 'self.read_idx']
         opens = [e for e in p.events if e.kind == 'call' and e.term == 'open']
         seeks = [e for e in p.events if e.kind == 'call' and e.term.endswith('.seek') and 'open(' in e.term]
-        if p.outcome is not None and p.outcome[0] == 'raise':
+        if p.outcome is not None and p.outcome[0] in ('raise', 'loopcut'):       # loopcut: a loop cut at the unrolling bound, not an exit of the method
             continue
         vanished = any(kk.startswith('raised-in-try@') for kk, v in p.pc)
         if found and found[0] is True and vanished:
